@@ -108,8 +108,10 @@ fn tilejson_case(rt: &tokio::runtime::Runtime, dir: &Path, case: &Value, n: usiz
 	rest.push(("name".into(), json!({"t":"s","v":string_to_cps(&name)})));
 	tj.set_string("attribution", "\u{a9} \"OSM\" \\ contributors\n").unwrap();
 	rest.push(("attribution".into(), json!({"t":"s","v":string_to_cps("\u{a9} \"OSM\" \\ contributors\n")})));
-	tj.set_byte("fillzoom", 7).unwrap();
-	rest.push(("fillzoom".into(), json!({"t":"n","v":canon_num(7.0)})));
+	let byte = d.get("byte").and_then(|b| b.as_u64()).unwrap_or(7) as u8;
+	// (a setter that refuses a legal byte leaves the key out: the read-back then misses it)
+	let _ = tj.set_byte("fillzoom", byte);
+	rest.push(("fillzoom".into(), json!({"t":"n","v":canon_num(byte as f64)})));
 	let (dmin, dmax) = (d["minzoom"].as_i64().unwrap(), d["maxzoom"].as_i64().unwrap());
 	if dmin >= 0 {
 		tj.set_byte("minzoom", dmin as u8).unwrap();
